@@ -24,7 +24,10 @@ RULE = (
     "switch on the construction succeeds iff every field conforms, otherwise InvalidTypes names "
     "exactly the non-conforming fields; with the switch off nothing is validated and, for conforming "
     "input, the node equals the one built with the switch on. is_instance is additionally called "
-    "directly on every (value, resolved annotation) pair. Pairs the statement leaves open (bool vs "
+    "directly on every (value, resolved annotation) pair. payload: nodes constructed by the deserializer "
+    "- child entries of one node of a serialized universe tree are exchanged for a node of a foreign "
+    "class; reading with the switch on must raise InvalidTypes (possibly wrapped) naming exactly "
+    "those fields, the untouched payload reads, with the switch off the foreign nodes are accepted. Pairs the statement leaves open (bool vs "
     "float, bool/int/float crossings inside Literal) are generated but not asserted. non-trivial = "
     "annotation depth >= 2 or a bool / None / container value."
 )
@@ -447,4 +450,151 @@ def st_construction(ctx: Ctx):
                                   "origin": st.sampled_from([0, 0, 0, 1, 2, 3])})
 
 
-PARTS = [Part("constructions", check_construction, strategy=st_construction, quick=6000, thorough=120000)]
+_STRANGER: list = []
+
+
+def stranger_cls():
+    """a node class outside the universe's hierarchy: conforms to no child field of the universe."""
+    if not _STRANGER:
+        from dataclasses import dataclass
+
+        from pyoak.node import ASTNode
+
+        @dataclass(frozen=True)
+        class C13Stranger(ASTNode):
+            n: int
+
+        _STRANGER.append(C13Stranger)
+    return _STRANGER[0]
+
+
+def check_payload(data: dict, lab: Labels) -> None:
+    """nodes are also constructed by the deserializer: a payload in which child entries of one node
+    were exchanged for a node of a class the field does not admit is read with the switch on
+    (InvalidTypes naming exactly the exchanged fields, possibly wrapped by the serialization library
+    when the node is not the payload's root) and off (nothing validated)."""
+    import copy
+    import json
+
+    from pyoak import config
+    from pyoak.error import InvalidTypes
+    from pyoak.node import ASTNode
+
+    from pbt import models_v2 as M
+    from pbt import trees as T
+
+    S = stranger_cls()
+    b, root_e, ex = T.build(data["tree"], allow_share=False)
+    root = b.root
+    cls = type(root)
+    good = root.as_dict()
+    parent: dict = {root_e.uid: None}
+    pos = list(T.positions(root_e))
+    for c, p, fn, i in pos:
+        parent[c.uid] = (p, fn, i)
+    inner = [e for e in T.nodes_preorder(root_e) if any(True for _ in e.children())]
+    if not inner:
+        lab.tag("no-inner-node")
+        return
+    pe = inner[data["parent"] % len(inner)]
+    path = []
+    cur = pe
+    while parent[cur.uid] is not None:
+        p, fn, i = parent[cur.uid]
+        path.append((fn, i))
+        cur = p
+    slots = [(fn, i) for c, p, fn, i in pos if p is pe]
+    chosen = [sl for k, sl in enumerate(slots) if data["mask"] >> (k % 16) & 1] or [slots[data["mask"] % len(slots)]]
+    strangers = []
+    bad = copy.deepcopy(good)
+    at = bad
+    for fn, i in reversed(path):
+        at = at[fn] if i is None else at[fn][i]
+    for k, (fn, i) in enumerate(chosen):
+        sn = S(n=data["base"] + k)
+        strangers.append(sn)
+        if i is None:
+            at[fn] = sn.as_dict()
+        else:
+            at[fn][i] = sn.as_dict()
+    expected = sorted({fn for fn, _ in chosen})
+    for n in T.live_nodes(root):
+        n.detach_self()
+    for sn in strangers:
+        sn.detach_self()
+    del strangers
+    fmt = data["fmt"] % 3
+
+    def read(payload: dict):
+        if fmt == 0:
+            return cls.as_obj(copy.deepcopy(payload))
+        if fmt == 1:
+            return ASTNode.as_obj(copy.deepcopy(payload))
+        return cls.from_json(json.dumps(payload))
+
+    def drop(payload: Any) -> None:
+        if isinstance(payload, dict):
+            n = ASTNode.get_any(payload["id"]) if isinstance(payload.get("id"), str) else None
+            if n is not None:
+                n.detach_self()
+            for v in payload.values():
+                drop(v)
+        elif isinstance(payload, list):
+            for v in payload:
+                drop(v)
+
+    lab.tag_if(pe is not root_e, "ill-typed-node-below-the-payload-root")
+    lab.tag_if(len(expected) >= 2, "several-fields-exchanged")
+    lab.tag_if(any(i is not None for _, i in chosen), "tuple-element-exchanged")
+    config.RUNTIME_TYPE_CHECK = True
+    try:
+        # the untouched payload is well-typed
+        try:
+            again = read(good)
+        except InvalidTypes as e:
+            require(False, "well-typed-construction-rejected", f"payload of a tree built by hand: {sorted(f.name for f in e.invalid_fields)}")
+        require(again.content_id == root.content_id, "payload-roundtrip", "")
+        del again
+        drop(good)
+        got: Any = None
+        try:
+            built = read(bad)
+        except Exception as e:  # noqa: BLE001
+            c: Any = e
+            while c is not None and not isinstance(c, InvalidTypes):
+                c = c.__cause__ or c.__context__
+            require(c is not None, "ill-typed-construction-accepted",
+                    f"reading failed without type validation: {short_tb(e)}")
+            got = sorted(f.name for f in c.invalid_fields)
+        else:
+            require(False, "ill-typed-construction-accepted",
+                    f"a {pe.cls} with a foreign node in {expected} was built from a payload with the switch on: {built!r:.120}")
+        require(got == expected, "invalid_fields", f"reported {got}, reference {expected} ({pe.cls} read from a payload)")
+    finally:
+        config.RUNTIME_TYPE_CHECK = False
+    drop(bad)
+    # switch off: nothing is validated
+    try:
+        built = read(bad)
+    except InvalidTypes:
+        require(False, "validation-with-switch-off", f"payload with foreign nodes in {expected}")
+    node = built
+    for fn, i in reversed(path):
+        node = getattr(node, fn) if i is None else getattr(node, fn)[i]
+    for fn, i in chosen:
+        v = getattr(node, fn) if i is None else getattr(node, fn)[i]
+        require(type(v) is S, "switch-off-field-value", f"{fn}[{i}] is a {type(v).__name__}")
+    lab.tag("switch-off-accepts-ill-typed")
+    lab.nontrivial = True
+
+
+def st_payload(ctx: Ctx):
+    from pbt import trees as T
+
+    g = T.TreeGen(leaves=ctx.pick(6, 9), share=False, twins=False, origin_rate=0.1, servals=True, frozensets=False, wide=False)
+    return st.fixed_dictionaries({"tree": g.inner_tree(), "parent": st.integers(0, 40), "mask": st.integers(0, 2**16 - 1),
+                                  "base": st.integers(0, 10**6), "fmt": st.integers(0, 2)})
+
+
+PARTS = [Part("payload", check_payload, strategy=st_payload, quick=800, thorough=20000),
+              Part("constructions", check_construction, strategy=st_construction, quick=6000, thorough=120000)]
